@@ -17,7 +17,7 @@ def sh(cmd, cwd=None, env=None, timeout=3600):
     return p.returncode, p.stdout
 
 
-def build_demo(tree, demo, out, fi=False):
+def build_demo(tree, demo, out, fi=False, extra=''):
     srcs = "$(ls src/ksi/*.c | grep -v -e cryptoapi -e winhttp -e wininet -e commoncrypto)"
     if fi:
         # demonstration brings its own allocator (my_malloc/my_calloc/my_free) behind base.c
@@ -32,7 +32,7 @@ def build_demo(tree, demo, out, fi=False):
         except OSError:
             pass
         return r
-    return sh('gcc -g -O1 -fsanitize=address -DHAVE_CONFIG_H -Isrc -Isrc/ksi -w %s %s -lcrypto -lcurl -lpthread -ldl -o %s' % (srcs, demo, out), cwd=tree)
+    return sh('gcc -g -O1 -fsanitize=address -DHAVE_CONFIG_H -Isrc -Isrc/ksi -w %s %s %s -lcrypto -lcurl -lpthread -ldl -o %s' % (extra, srcs, demo, out), cwd=tree)
 
 
 def audit(name, tier='quick'):
@@ -55,7 +55,7 @@ def audit(name, tier='quick'):
             os.makedirs(os.path.join(scratch, 'seed_out', k), exist_ok=True)
         env = dict(os.environ, ASAN_OPTIONS='detect_leaks=0')
         if os.path.exists(demo):
-            rc, out = build_demo(scratch, demo, '/var/tmp/vf_seed_%s_demo0' % name, meta.get('demo_alloc_seam', False))
+            rc, out = build_demo(scratch, demo, '/var/tmp/vf_seed_%s_demo0' % name, meta.get('demo_alloc_seam', False), meta.get('demo_flags', ''))
             r0, o0 = sh('/var/tmp/vf_seed_%s_demo0' % name, cwd=scratch, env=env, timeout=300) if rc == 0 else (999, out)
             res['demo_unchanged_rc'] = r0
         rc, out = sh('git apply %s' % os.path.join(d, 'patch.diff'), cwd=scratch)
@@ -65,7 +65,7 @@ def audit(name, tier='quick'):
         rc, out = sh('CC=gcc CFLAGS="-I%s/src/" bash ./test/include-test.sh ./test' % scratch, cwd=scratch)
         res['baseline_passes'] = (rc == 0 and 'OK (' in out)
         if os.path.exists(demo):
-            rc, out = build_demo(scratch, demo, '/var/tmp/vf_seed_%s_demo1' % name, meta.get('demo_alloc_seam', False))
+            rc, out = build_demo(scratch, demo, '/var/tmp/vf_seed_%s_demo1' % name, meta.get('demo_alloc_seam', False), meta.get('demo_flags', ''))
             res['compiles'] = rc == 0
             r1, o1 = sh('/var/tmp/vf_seed_%s_demo1' % name, cwd=scratch, env=env, timeout=300) if rc == 0 else (999, out)
             res['demo_changed_rc'] = r1
